@@ -442,6 +442,11 @@ def check_C12(ctx):
     if ctx.quick():
         import random
         lay = random.Random(ctx.seed).sample(lay, 900)
+    # three layers (files) over the same keys, sampled by TLC simulation: the closure of a range compaction under overlap may
+    # then need more than one pass
+    lay3 = tlc_sim(ctx, 'GEN_Layout', 'GEN_Layout3.cfg', 700 if ctx.quick() else 6000, 30, ctx.seed * 19 + 1, timeout=600, tag='gen-layout3')
+    ctx.notes['three_layer_layouts_sampled'] = len(lay3)
+    lay = lay + lay3
     nontrivial_c12(ctx, lay)
     ctx.traces += run_replays(ctx, 'C12', lay, ['-dirview'], [CLASSES[0], ('ascii-bigmem-immsync', 'ascii', {'memtable_size': 1 << 20, 'sync_mode': 2, 'compact_sec': 3600}, 1.0)][:1 if ctx.quick() else 2], 'c12lay')
     ctx.evaluations = ctx.traces
